@@ -534,3 +534,8 @@ fn ensure_block_hashes_match(in_commit: &[u8], in_header: &block::Hash) -> eyre:
     );
     Ok(())
 }
+
+// verif hook: deterministic-simulation harness, mounted from /verif (see /verif/DESIGN.md).
+#[cfg(all(test, feature = "verif"))]
+#[path = "/verif/harness/conductor_verify/mod.rs"]
+pub(super) mod verif;
